@@ -176,6 +176,11 @@ def enumerate_minima(spec, n):
             None if best_free is None else dict(zip(keys, best_free)))
 
 
+def _enum_job(net):
+    inputs, output, sd = net
+    return enumerate_minima(SpecNet(inputs, output, sd), len(inputs))
+
+
 def precondition(inputs, output, size_dict):
     """connected, nothing to pre-simplify (the text of the property)"""
     n = len(inputs)
@@ -265,6 +270,46 @@ def gen_precond_net(rng, n):
         if precondition(inputs, output, size_dict):
             return inputs, output, size_dict
     raise RuntimeError("generator failed to produce a precondition network")
+
+
+def tree_vectors(spec, n):
+    """(flops, max, size, write) of every binary tree over n leaves (for the directed generator)"""
+    def trees(S):
+        S = sorted(S)
+        if len(S) == 1:
+            yield (0, 0, 0, 0)
+            return
+        first, rest = S[0], S[1:]
+        for msk in range(0, 2 ** len(rest) - 1):
+            A = frozenset([first] + [rest[b] for b in range(len(rest)) if msk >> b & 1])
+            B = frozenset(S) - A
+            f, s, _ = spec.step(A, B)
+            tb = list(trees(B))
+            for a in trees(A):
+                for b in tb:
+                    yield (a[0] + b[0] + f, max(a[1], b[1], f), max(a[2], b[2], s), a[3] + b[3] + s)
+    return list(trees(frozenset(range(n))))
+
+
+def directed_nets(rng, want, tries=400):
+    """precondition networks on which the objectives DISAGREE: no flops-optimal tree is max-optimal
+    (kind 'fm'), or no write-optimal tree is size-optimal (kind 'ws').  Such networks are rare
+    (~2%) among random ones, and only they expose a cost function that computes another objective."""
+    found = {"fm": [], "ws": []}
+    for _ in range(tries):
+        if all(len(v) >= want for v in found.values()):
+            break
+        n = rng.choice([5, 5, 6])
+        inputs, output, sd = gen_precond_net(rng, n)
+        sd = {k: rng.choice(rng.choice([[2, 3], [2, 3, 4, 16], [2, 3, 5, 7, 11, 13], [2, 2, 2, 5, 7]])) for k in sd}
+        vs = tree_vectors(SpecNet(inputs, output, sd), n)
+        minf = min(v[0] for v in vs)
+        minw = min(v[3] for v in vs)
+        if min(v[1] for v in vs if v[0] == minf) > min(v[1] for v in vs) and len(found["fm"]) < want:
+            found["fm"].append((inputs, output, sd))
+        elif min(v[2] for v in vs if v[3] == minw) > min(v[2] for v in vs) and len(found["ws"]) < want:
+            found["ws"].append((inputs, output, sd))
+    return found
 
 
 # ---------------------------------------------------------------------------
@@ -429,7 +474,9 @@ def run(ctx):
     # ------------------------------------------------------------------ jobs
     jobs = []
     # K1: DP level on arbitrary processor states
-    n_dp = ctx.n(160, 1500)
+    # VERIF_C09_SCALE (default 1) scales the numbers of generated cases; used only to smoke-test a tier quickly
+    scale = float(os.environ.get("VERIF_C09_SCALE", "1") or 1)
+    n_dp = max(6, int(ctx.n(160, 1500) * scale))
     for c in range(n_dp):
         if c % 3 == 0:
             inputs, output, sd = gen_precond_net(rng, rng.randint(3, 6))
@@ -443,14 +490,22 @@ def run(ctx):
                      "cap": rng.choice(CAPS), "search_outer": rng.random() < 0.5,
                      "trace": 1500 if c % 2 == 0 else 0, "net": kindnet, "cobj": cobj, "timeout": 15})
     # K2 + oracle: end to end on precondition networks
-    n_net = ctx.n(24, 260)
+    n_net = max(12, int(ctx.n(24, 260) * scale))
     nets = []
-    for c in range(n_net):
-        if ctx.quick:
-            n = [3, 4, 4, 5, 5, 5, 6, 6, 6, 6, 7, 8][c % 12]
+    directed = directed_nets(rng, ctx.n(3, 12))
+    dlist = [(k, net) for k, v in sorted(directed.items()) for net in v]
+    for k, _ in dlist:
+        ctx.count("directed_objectives_disagree_%s" % k)
+    for c in range(n_net + len(dlist)):
+        if c < len(dlist):
+            inputs, output, sd = dlist[c][1]
+            n = len(inputs)
         else:
-            n = [3, 4, 4, 5, 5, 5, 6, 6, 6, 6, 7, 7, 7, 8, 9][c % 15]
-        inputs, output, sd = gen_precond_net(rng, n)
+            if ctx.quick:
+                n = [3, 4, 4, 5, 5, 5, 6, 6, 6, 6, 7, 8][c % 12]
+            else:
+                n = [3, 4, 4, 5, 5, 5, 6, 6, 6, 6, 7, 7, 7, 8, 9][c % 15]
+            inputs, output, sd = gen_precond_net(rng, n)
         nets.append((inputs, output, sd))
         combos = [(o, so) for o in range(len(OBJECTIVES)) for so in (False, True)]
         # the six named objectives x both search_outer always; custom factors sampled
@@ -468,7 +523,7 @@ def run(ctx):
                              "timeout": 30 if n <= 8 else 90})
     # informational only: networks OUTSIDE the precondition (the property does not apply; never judged)
     info_nets = []
-    for c in range(ctx.n(40, 300)):
+    for c in range(max(5, int(ctx.n(40, 300) * scale))):
         inputs, output, sd = gen.rand_net(rng, nmin=3, nmax=6, p_scalar=0.05)
         if precondition(inputs, output, sd) or any(ix not in {a for t in inputs for a in t} for ix in output):
             continue
@@ -498,12 +553,16 @@ def run(ctx):
     # ------------------------------------------------------------------ oracle + K2
     enum_limit = ctx.n(6, 7)
     specs = {}
+    todo = [c for c, (inputs, output, sd) in enumerate(nets) if len(inputs) <= enum_limit + 1]
+    import multiprocessing
+    with multiprocessing.Pool(14) as pool:
+        enum_res = dict(zip(todo, pool.map(_enum_job, [nets[c] for c in todo], chunksize=1)))
     for c, (inputs, output, sd) in enumerate(nets):
         spec = SpecNet(inputs, output, sd)
         n = len(inputs)
         mins = None
-        if n <= enum_limit + 1:
-            cnt, best_all, best_free = enumerate_minima(spec, n)
+        if c in enum_res:
+            cnt, best_all, best_free = enum_res[c]
             dfact = prod(range(2 * n - 3, 0, -2))
             if cnt != dfact:
                 raise RuntimeError("oracle enumerated %d trees, expected %d" % (cnt, dfact))
@@ -612,12 +671,14 @@ def run(ctx):
             # tscore / admissible of the returned tree by the Coq SPEC, and the executable
             # hypothesis wf_procb of the theorems C09_dp_optimal / C09_optimize_optimal_is_optimal
             lhs2 = ("let p := %s in (tscore (p_nodes p) (p_app p) (p_sizes p) %s %s, "
-                    "(admissible (p_nodes p) (p_app p) %s %s, wf_procb (p_nodes p) (p_app p) (p_sizes p)))"
-                    % (P, cobj, tr, coq(bool(so)), tr))
-            rhs2 = "(%s, (true, true))" % coq(Z(got))
+                    "(admissible (p_nodes p) (p_app p) %s %s, (wf_procb (p_nodes p) (p_app p) (p_sizes p), "
+                    "full_treeb %d %s)))" % (P, cobj, tr, coq(bool(so)), tr, n, tr))
+            rhs2 = "(%s, (true, (true, true)))" % coq(Z(got))
             cases.append((job["id"] + "_spec", lhs2, rhs2))
             recs.append(dict(rec, what="Coq spec score / admissibility of the returned tree"))
-            if n <= enum_limit:
+            # brute_min inside Coq costs ~1.5 s for n=6 and ~17 s for n=7: all configurations up to
+            # n=5 (quick) / n=6 (thorough), a few per network at the enumeration limit
+            if n < enum_limit or (n == enum_limit and (job["oi"] + 2 * int(so) + c) % ctx.n(4, 8) == 0):
                 lhs3 = "let p := %s in brute_min (p_nodes p) (p_app p) (p_sizes p) %s %s" % (P, cobj, coq(bool(so)))
                 rhs3 = "(Some %s)" % coq(Z(got))
                 cases.append((job["id"] + "_brute", lhs3, rhs3))
@@ -697,7 +758,9 @@ def run(ctx):
         "K1: ContractionProcessor states from precondition networks (1/3) and perverse networks (2/3: repeated "
         "indices, scalars, disconnected, hyper, leaf-only, index on all tensors), simplify on/off, every connected "
         "group, random objective (10 strings incl. custom factors), cap in %r, both search_outer; half with the full "
-        "cost-function call trace.  K2/oracle: precondition networks n=3..8/9 (tree/ring/dense/random shapes, hyper "
+        "cost-function call trace.  K2/oracle: 6/24 directed networks on which the objectives provably disagree "
+        "(no flops-optimal tree is max-optimal / no write-optimal tree is size-optimal, found by enumeration) + "
+        "precondition networks n=3..8/9 (tree/ring/dense/random shapes, hyper "
         "indices, dangling and shared output indices, mixed dims incl. 1 and 64) x 6 named objectives x both "
         "search_outer x 3 caps (default 2, a tiny one, a large one) + 3 custom-factor configs, entry point in "
         "{optimize_optimal, OptimalOptimizer.ssa_path, OptimalOptimizer.__call__}; oracle enumeration n<=%d, "
